@@ -10,7 +10,8 @@ REQUIRED_THEOREMS = ['Props.C12.applyOrder_setAttr_frame', 'Props.C12.updColl_fr
                      'Props.C12.parameters_nodup', 'Props.C12.parameters_eq_dedup_flat', 'Props.C12.mem_parameters_iff',
                      'Props.C12.numParams_split', 'Props.C12.setAttr_replaces', 'Props.C12.setTraining_reaches',
                      'Props.C12.sequential_order', 'Props.C12.zeroGrad_exact', 'Props.C12.setReqGrad_exact',
-                     'Props.C12.applyOrder_setAttr_mod', 'Props.C12.applyOrder_setAttr_other', 'Props.C12.applyOrder_regMod']
+                     'Props.C12.applyOrder_setAttr_mod', 'Props.C12.applyOrder_setAttr_other', 'Props.C12.applyOrder_regMod',
+                     'Props.C12.wrapPar_spec', 'Props.C12.wrapPar_frame', 'Props.C12.setReqGrad_other', 'Props.C12.zeroGrad_other', 'Props.C12.setParReqGrad_other']
 RULE = ('random module programs: create modules/parameters, assign attributes from a small name pool (so names are '
         're-assigned to another module / parameter / None / a plain value), explicit register_*, Sequential positional '
         'and OrderedDict, shared parameters and submodules (child created before parent), interleaved with '
@@ -25,6 +26,11 @@ RULE = ('random module programs: create modules/parameters, assign attributes fr
         'removes / moves / reverses / clears its entries before, between and after the constructions, interleaved with attribute '
         'replacement, register_module, train / eval / freeze / unfreeze / zero_grad on the containers; after every step every '
         'container is listed, counted and run (each must depend on its own history only). '
+        'PARAMETERS CREATED FROM EXISTING OBJECTS: nn.Parameter(t) over a live tensor (twice on the same one), nn.Parameter(p) over a parameter '
+        'that stays in use (dec.w = nn.Parameter(enc.w)), a Parameter of a Parameter of a Parameter, sources with and without a gradient and with '
+        'either flag, the copies registered in other subtrees than their sources; then freeze / unfreeze / zero_grad on single owners and common '
+        'ancestors, the requires_grad setter and the .grad setter on single objects, in any order; after every step the flags and gradients of ALL '
+        'objects (sources included) are compared, and every object outside the parameters() of the node acted on must be exactly as it was. '
         'Non-trivial: the program shares or re-assigns at least one name.')
 EXHAUSTIVE = {'quick': False, 'thorough': False}
 ASSUMPTIONS = ['hierarchies are acyclic (a module is never made a descendant of itself)']
@@ -319,6 +325,80 @@ def gen_coll_program(rng, tier):
     return ops, True
 
 
+def gen_wrap_program(rng, tier):
+    """parameters made from existing tensors / parameters: sources (plain tensors, parameters; with either flag, with or without a
+    gradient), wrapped once / twice / in chains, the copies registered in OTHER modules than their sources (siblings under a common
+    root, a chain); then freeze / unfreeze / zero_grad on single owners and on ancestors, the setters on single objects.  Every object
+    (the sources too) is observed after every step."""
+    nm = rng.randint(2, 4)
+    ops = ['mod new'] * nm
+    npar = 0
+    owner = {}            # parameter -> module it is registered in (plain tensors are never registered)
+    plain = set()
+    def source():
+        nonlocal npar
+        sz, rg = rng.randint(1, 4), rng.randint(0, 1)
+        if rng.chance(.4):
+            ops.append(f'mod tens {sz} {rg}'); plain.add(npar)
+        else:
+            ops.append(f'mod param {sz} {rg}')
+            m = rng.randrange(nm); ops.append(f'mod set {m} {rng.pick(["w", "v", "a"])}{npar} p{npar}'); owner[npar] = m
+        npar += 1
+        if rng.chance(.4): ops.append(f'mod gset {npar - 1} {rng.randint(1, 9)}')
+        return npar - 1
+    def wrap(src):
+        nonlocal npar
+        ops.append(f'mod pwrap {src}' + rng.pick(['', '', ' 0', ' 1']))
+        k = npar; npar += 1
+        # registered in another module than the source where there is one
+        others = [m for m in range(nm) if m != owner.get(src)]
+        m = rng.pick(others) if rng.chance(.85) else rng.randrange(nm)
+        ops.append(f'mod set {m} {rng.pick(["w", "v", "a"])}{k} p{k}'); owner[k] = m
+        return k
+    for _ in range(rng.randint(1, 2)):
+        s_ = source()
+        shape = rng.random()
+        if shape < .35:                       # the same live source wrapped twice (thrice)
+            for _ in range(rng.randint(2, 3)): wrap(s_)
+        elif shape < .7:                      # a chain: Parameter of a Parameter (of a Parameter)
+            k = s_
+            for _ in range(rng.randint(1, 3)): k = wrap(k)
+        else:                                 # a source changed between two wraps
+            wrap(s_)
+            ops.append(rng.pick([f'mod psetrg {s_} {rng.randint(0, 1)}', f'mod gset {s_} {rng.randint(1, 9)}']))
+            wrap(s_)
+    tree = rng.random()
+    if tree < .4:                             # a common root over all owners
+        ops.append('mod new')
+        for m in range(nm): ops.append(f'mod set {nm} c{m} m{m}')
+        nm += 1
+    elif tree < .6:                           # a chain of owners
+        for m in range(1, nm): ops.append(f'mod set {m} sub m{m - 1}')
+    obs = ['mod pflags', 'mod grads']
+    ops += obs + [f'mod params {m}' for m in range(nm)] + [f'mod num {m}' for m in range(nm)]
+    for _ in range(rng.randint(4, 9 if tier == 'quick' else 20)):
+        r = rng.random()
+        if r < .55: ops.append(f'mod {rng.pick(["freeze", "unfreeze", "zero", "freeze", "zero"])} {rng.randrange(nm)}')
+        elif r < .7: ops.append(f'mod psetrg {rng.randrange(npar)} {rng.randint(0, 1)}')
+        elif r < .85: ops.append(f'mod gset {rng.randrange(npar)} {rng.randint(1, 9)}')
+        elif r < .92: ops.append(f'mod gshare {rng.randrange(npar)} {rng.randrange(npar)}')
+        else:
+            src = rng.randrange(npar); wrap(src)
+        ops += obs
+        if rng.chance(.5): ops.append(f'mod num {rng.randrange(nm)}')
+    ops += obs + [f'mod params {m}' for m in range(nm)] + [f'mod num {m}' for m in range(nm)]
+    return ops, True
+
+
+def to_model(line):
+    """a live plain tensor that parameters are made from is, for the model, one more object with a size, a flag and a gradient (never
+    registered anywhere); the `requires_grad=` keyword of Parameter(tensor) is not consulted by the copy constructor"""
+    t = line.split(' ')
+    if t[1] == 'tens': return ' '.join(['mod', 'param'] + t[2:])
+    if t[1] == 'pwrap': return ' '.join(t[:3])
+    return line
+
+
 def cases(rng, tier):
     out = []
     n = 150 if tier == 'quick' else 4000
@@ -337,6 +417,9 @@ def cases(rng, tier):
     for i in range(40 if tier == 'quick' else 800):
         ops, nt = gen_coll_program(rng, tier)
         out.append({'lines': ops, 'nt': nt, 'family': 'caller-collection', 'desc': ' ; '.join(ops[:40])})
+    for i in range(60 if tier == 'quick' else 1500):
+        ops, nt = gen_wrap_program(rng, tier)
+        out.append({'lines': ops, 'nt': nt, 'family': 'wrapped-parameter', 'desc': ' ; '.join(ops[:60])})
     # corpus: minimal programs for each past defect
     corpus = [
         ['mod new', 'mod param 3 1', 'mod set 0 a p0', 'mod set 0 b p0', 'mod params 0', 'mod num 0'],
@@ -348,6 +431,14 @@ def cases(rng, tier):
         # two parameters of different modules over the same gradient values; zero_grad on one owner leaves the other alone
         ['mod new', 'mod new', 'mod param 3 1', 'mod param 3 1', 'mod set 0 w p0', 'mod set 1 w p1', 'mod gset 0 5', 'mod gshare 0 1', 'mod grads', 'mod zero 0', 'mod grads', 'mod pflags',
          'mod freeze 1', 'mod gset 0 7', 'mod gshare 0 1', 'mod zero 1', 'mod grads'],
+    ]
+    # parameters made from existing objects: dec.w = Parameter(enc.w); Parameter(t) twice on one live tensor; Parameter of a Parameter
+    corpus += [
+        ['mod new', 'mod new', 'mod param 6 1', 'mod set 0 w p0', 'mod pwrap 0', 'mod set 1 w p1', 'mod pflags', 'mod freeze 1', 'mod pflags', 'mod num 0', 'mod num 1',
+         'mod unfreeze 0', 'mod pflags', 'mod unfreeze 1', 'mod zero 1', 'mod pflags', 'mod grads', 'mod gset 0 4', 'mod grads', 'mod zero 0', 'mod grads'],
+        ['mod new', 'mod new', 'mod tens 4 1', 'mod pwrap 0', 'mod pwrap 0 1', 'mod set 0 w p1', 'mod set 1 w p2', 'mod freeze 0', 'mod pflags', 'mod num 1', 'mod zero 1', 'mod pflags', 'mod grads'],
+        ['mod new', 'mod new', 'mod new', 'mod param 2 0', 'mod gset 0 3', 'mod set 0 w p0', 'mod pwrap 0', 'mod pwrap 1 0', 'mod set 1 w p1', 'mod set 2 w p2', 'mod set 2 sub m1',
+         'mod pflags', 'mod grads', 'mod unfreeze 1', 'mod pflags', 'mod zero 2', 'mod grads', 'mod psetrg 0 1', 'mod pflags', 'mod freeze 2', 'mod pflags', 'mod num 2', 'mod num 0'],
     ]
     # explicit registration over a name that holds a member of the OTHER kind, then every listing / mode / freeze query
     tail = lambda m: [f'mod params {m}', f'mod num {m}', f'mod eval {m}', 'mod flags', f'mod freeze {m}', 'mod pflags', f'mod train {m}', 'mod flags', f'mod unfreeze {m}', 'mod pflags', f'mod num {m}']
@@ -411,6 +502,15 @@ class World:
         if t[0] == 'param':
             self.pars.append(nn.Parameter(np.zeros(int(t[1]), dtype=np.float32), requires_grad=bool(int(t[2]))))
             return f'p{len(self.pars) - 1}'
+        if t[0] == 'tens':          # a plain tensor of the program that parameters are made from (never registered itself)
+            self.pars.append(self.sg.Tensor(np.zeros(int(t[1]), dtype=np.float32), requires_grad=bool(int(t[2]))))
+            return f'p{len(self.pars) - 1}'
+        if t[0] == 'pwrap':         # nn.Parameter(existing tensor / parameter[, requires_grad=...]): a new object
+            src = self.pars[int(t[1])]
+            self.pars.append(nn.Parameter(src) if len(t) < 3 else nn.Parameter(src, requires_grad=bool(int(t[2]))))
+            return f'p{len(self.pars) - 1}'
+        if t[0] == 'psetrg':        # the setter on ONE object
+            self.pars[int(t[1])].requires_grad = bool(int(t[2])); return 'ok'
         if t[0] == 'set':
             setattr(self.mods[int(t[1])], t[2], self.val(t[3])); return 'ok'
         if t[0] == 'regm':
@@ -517,12 +617,20 @@ def distribution(cases):
         if c.get('family'): inc('family:' + c['family'])
         seqs, mutated = set(), set()
         colls = []
+        kinds, wrapped = [], set()
         nm = 0
         for l in c['lines']:
             t = l.split(' ')
             inc(t[1])
             if t[1] == 'new': nm += 1
             if t[1] in ('cdict', 'clist'): colls.append([t[1][1:], 0, False])
+            if t[1] in ('param', 'tens', 'pwrap'):
+                if t[1] == 'pwrap':
+                    src = int(t[2])
+                    inc('parameter made from an existing ' + ('plain tensor' if kinds[src] == 'tens' else 'parameter' if kinds[src] == 'param' else 'wrapped parameter (chain)')
+                        + (' — wrapped before (2nd+ copy of one source)' if src in wrapped else ''))
+                    wrapped.add(src)
+                kinds.append(t[1])
             if t[1] == 'seqc':
                 k = colls[int(t[2])]
                 k[1] += 1
@@ -616,9 +724,31 @@ class Registry:
 def oracle(c):
     w = World()
     reg = Registry()
+    snap = lambda: [(id(p), bool(p.requires_grad), None if p._grad is None else np.array(p._grad, dtype=np.float64).ravel().tolist()) for p in w.pars]
     for li, line in enumerate(c['lines']):
-        r = outcome(lambda: w.run(line))
         t = line.split(' ')
+        before = snap()
+        # the objects the line may change: the parameters() of the node acted on (by identity), the one object of a setter
+        may = None
+        if t[1] in ('freeze', 'unfreeze', 'zero') and int(t[2]) < len(w.mods):
+            seen_m, params = {}, {}
+            _reach(w.nn, w.mods[int(t[2])], seen_m, params)
+            may = set(params)
+        elif t[1] in ('gset', 'psetrg') and int(t[2]) < len(w.pars): may = {id(w.pars[int(t[2])])}
+        elif t[1] == 'gshare' and int(t[3]) < len(w.pars): may = {id(w.pars[int(t[3])])}
+        r = outcome(lambda: w.run(line))
+        after = snap()
+        for k, (b_, a_) in enumerate(zip(before, after)):
+            if b_ != a_ and b_[0] not in (may or ()):
+                what = 'requires_grad' if b_[1] != a_[1] else 'gradient'
+                return {'key': {'class': 'frame', 'op': t[1]}, 'case': {'lines': c['lines'][:li + 1]},
+                        'what': f'{line} changed the {what} of p{k} ({b_[1:]} -> {a_[1:]}), which is not among the objects that call acts on'
+                                + (f' (the parameters() of m{t[2]})' if t[1] in ('freeze', 'unfreeze', 'zero') else '')}
+        if t[1] == 'pwrap' and r != 'rejected' and len(after) == len(before) + 1:
+            src = before[int(t[2])]
+            if after[-1][1:] != src[1:] or after[-1][0] in [b_[0] for b_ in before]:
+                return {'key': {'class': 'wrap'}, 'case': {'lines': c['lines'][:li + 1]},
+                        'what': f'{line}: the new parameter {after[-1][1:]} does not start as a distinct copy of its source {src[1:]}'}
         if r == 'rejected' and t[1] != 'unfreeze':
             return {'key': {'class': 'rejected', 'op': t[1]}, 'case': {'lines': c['lines'][:li + 1]}, 'what': f'{line} raised'}
         reg.run(t[1:])
